@@ -124,6 +124,9 @@ fn name_case(ctx: &mut Ctx, ty: &'static str, n: &str, counter: &'static str) {
             _ => {},
         }
         ctx.st.nontrivial(fnv(format!("{ty}\u{0}{n}").as_bytes()));
+        if n.chars().count() >= 3 {
+            ctx.st.sample(|| json!({"type": ty, "name": n, "rule_output": typed_name(ty, n), "checked": "parser path and builder path both report the rule output"}));
+        }
         if ty == "nuget" {
             for c in n.chars() {
                 if gen::TITLECASE.contains(&c) {
